@@ -8,7 +8,67 @@ Decided (explicit data flow, flow- and field-sensitive, per engine path):
              (`produced < offset` skipping), which explicit-flow analysis does not see; it is not checked.
 Not decided: that the concatenation of pages equals the one-shot result (values)."""
 from . import lib
-from .facts import op_place
+from .facts import op_place, Place
+
+
+def _skip_granularity(ctx, fn):
+    """GUARD-C16c: the counter compared with the page offset advances one result unit at a time; a larger step is
+    allowed only where a comparison establishes that the whole step still lies before the offset."""
+    pc = fn.calls_to('parse_cursor')
+    if not pc:
+        return
+    off_locals = set()
+    sb, _ = fn.success_block(pc[0])
+    # locals holding the parsed offset
+    for l in range(len(fn.locals)):
+        if fn.local_ty(l) == 'usize' and fn.local_name(l) == 'offset':
+            off_locals.add(l)
+    counters = set()
+    for c in lib.comparisons(fn):
+        for xo, y in ((c.a, c.sb()), (c.b, c.sa())):
+            if pc[0] not in y.calls:
+                continue
+            x = lib.slice_back(fn, [xo], through_calls=False, at=(c.bb, None))
+            if pc[0] in x.calls:
+                continue
+            for l in x.locals:
+                if fn.local_ty(l) == 'usize' and fn.local_name(l):
+                    counters.add(l)
+    d = lib.defs(fn)
+    for p in sorted(counters):
+        for s in d.get(p, ()):
+            if s['kind'] != 'stmt' or s['lhs'].p:
+                continue
+            sl = lib.slice_back(fn, lib.rv_operands(s['rv']), through_calls=True, at=(s['bb'], s['idx']), stop_locals=(p,))
+            if not ({'Add', 'AddWithOverflow'} & sl.ops):
+                continue
+            ctx.evaluations += 1
+            step_consts = [v for v in sl.const_vals() if isinstance(v, int)]
+            unit = (step_consts == [1] or set(step_consts) == {1}) and not sl.calls and not (sl.locals - {p} - _tmp_chain(fn, sl.locals, p))
+            if unit:
+                ctx.ok('GUARD-C16c', fn, 'page counter `%s` advances by exactly one result' % fn.local_name(p), line=s['line'])
+                continue
+            # larger step: must be dominated by a comparison that involves the step itself and the offset
+            step_src = {l for l in sl.locals if fn.local_name(l) and l != p} | {id(cc) for cc in sl.calls}
+            g = None
+            for c, rel in lib.guards_holding_at(fn, s['bb']):
+                # form: (counter + step) <rel> offset — the step must sit on the counter's side of the comparison
+                for mine, other in ((c.a, c.b), (c.b, c.a)):
+                    xm = lib.slice_back(fn, [mine], through_calls=False, at=(c.bb, None), stop_locals=(p,))
+                    xo = lib.slice_back(fn, [other], through_calls=True, at=(c.bb, None))
+                    involved = {l for l in xm.locals if fn.local_name(l) and l != p} | {id(cc) for cc in xm.calls}
+                    if p in xm.locals and pc[0] in xo.calls and (step_src & involved):
+                        g = c
+            if g is not None:
+                ctx.ok('GUARD-C16c', fn, 'page counter `%s` skips a whole group only where the group is shown to lie before the offset (line %s)' % (fn.local_name(p), g.line), line=s['line'])
+            else:
+                ctx.bad('GUARD-C16c', fn, 'page counter `%s` is advanced by more than one result without a test that the whole step lies before the cursor offset: '
+                        'a page boundary inside a document drops the rest of its hits' % fn.local_name(p), line=s['line'], detail='counter-step-unbounded:' + (fn.local_name(p) or '?'))
+
+
+def _tmp_chain(fn, locals_, p):
+    """unnamed temporaries (no user variable name)"""
+    return {l for l in locals_ if not fn.local_name(l)}
 
 ENGINES = ('memvid::search::tantivy::try_tantivy_search', 'memvid::search::fallback::search_with_lex_fallback',
            'memvid::search::fallback::search_with_filters_only')
@@ -17,6 +77,7 @@ PRODUCERS = ('search_documents', 'compute_matches')
 
 def run(ctx):
     ctx.rule('FLOW-C16a', 'request.cursor does not flow into total_hits nor into the candidate producer\'s arguments')
+    ctx.rule('GUARD-C16c', 'the page counter advances one result at a time (larger steps only under a bound test against the offset)')
     ctx.rule('FLOW-C16b', 'page offset = parse_cursor(request.cursor, total reported)')
     F = ctx.facts()
     n = 0
@@ -62,4 +123,5 @@ def run(ctx):
                 ctx.bad('FLOW-C16b', fn, 'parse_cursor is not applied to request.cursor', line=pc[0].line, detail='parse-cursor-arg')
         else:
             ctx.bad('FLOW-C16b', fn, 'engine path does not parse the cursor', detail='no-parse-cursor')
+        _skip_granularity(ctx, fn)
     ctx.floor('FLOW-C16a', n, 3, 'SearchResponse constructions on the engine paths')
